@@ -57,23 +57,24 @@ class TransferShelveCache:
         logger.info("writing %d transfers to : %s", len(transfers), db_path)
 
         with shelve.open(db_path, flag='c') as database:
-            # Update/add transfers
+            # Update/add transfers. The parts of the key are separated: the
+            # concatenation of the username and remote path of two different
+            # transfers can be identical
+            keys = set()
             for transfer in transfers:
                 key = hashlib.sha256(
-                    (
-                        transfer.username +
-                        transfer.remote_path +
+                    '\x00'.join([
+                        transfer.username,
+                        transfer.remote_path,
                         str(transfer.direction.value)
-                    ).encode('utf-8')
+                    ]).encode('utf-8')
                 ).hexdigest()
                 database[key] = transfer
+                keys.add(key)
 
-            # Remove non existing transfers
-            keys_to_delete = []
-            for key, db_transfer in database.items():
-                if not any(transfer == db_transfer for transfer in transfers):
-                    keys_to_delete.append(key)
-            for key_to_delete in keys_to_delete:
+            # Remove non existing transfers (and transfers stored under a key
+            # calculated in another way by a previous version)
+            for key_to_delete in set(database.keys()) - keys:
                 database.pop(key_to_delete)
 
         logger.info("successfully wrote %d transfers to : %s", len(transfers), db_path)
